@@ -4,7 +4,7 @@
 //! subscription; several StreamingPull streams (request side kept open) and blocked Pulls on it; a few messages;
 //! then TWO DeleteSubscription calls at the same time, with GetSubscription / Acknowledge / Pull calls racing them.
 //! Read afterwards (C12, C07, C10):
-//!   * every call has an answer within 5 s (none hangs);
+//!   * every call has an answer within 15 s (none hangs);
 //!   * every stream ends, and ends with NOT_FOUND; every blocked Pull returns (messages, or an error status);
 //!   * exactly one of the two deletions answers OK, the other NOT_FOUND;
 //!   * after both have returned GetSubscription answers NOT_FOUND.
@@ -22,7 +22,7 @@ use tokio_stream::wrappers::UnboundedReceiverStream;
 use tonic::transport::Endpoint;
 use tonic::Code;
 
-const WAIT: Duration = Duration::from_secs(5);
+const WAIT: Duration = Duration::from_secs(15);
 
 pub fn main_grpcstress(args: &[String]) -> i32 {
     let rounds: usize = args.first().and_then(|s| s.parse().ok()).unwrap_or(100);
@@ -169,7 +169,7 @@ pub fn main_grpcstress(args: &[String]) -> i32 {
                     _ => {
                         not_ended += 1;
                         if not_ended <= 3 {
-                            eprintln!("round {}: a stream is still open 5 s after its subscription was deleted", r);
+                            eprintln!("round {}: a stream is still open 15 s after its subscription was deleted", r);
                         }
                     }
                 }
@@ -178,7 +178,7 @@ pub fn main_grpcstress(args: &[String]) -> i32 {
                 if tokio::time::timeout(WAIT, p).await.is_err() {
                     pull_stuck += 1;
                     if pull_stuck <= 3 {
-                        eprintln!("round {}: a blocked Pull is still waiting 5 s after its subscription was deleted", r);
+                        eprintln!("round {}: a blocked Pull is still waiting 15 s after its subscription was deleted", r);
                     }
                 }
             }
